@@ -188,7 +188,7 @@ func c04Gen(t *rapid.T) c04Plan {
 	p := c04Plan{}
 	p.Services = c04GenServices(t, 6)
 	p.Order2 = rapid.Permutation(vfIota(len(p.Services))).Draw(t, "order2")
-	p.Detour = rapid.IntRange(0, 3).Draw(t, "detour")
+	p.Detour = rapid.IntRange(0, 4).Draw(t, "detour")
 	p.DetourOn = rapid.IntRange(0, len(p.Services)-1).Draw(t, "detour-on")
 	p.Restart = rapid.Bool().Draw(t, "restart")
 	p.Requests = c04GenRequests(t, p.Services)
@@ -276,6 +276,15 @@ func c04Run(t *testing.T, p c04Plan) (res vfResult) {
 					return
 				}
 				res.label("detour:rebind")
+			}
+			if p.Detour == 4 && i == p.DetourOn%len(p.Services) {
+				// the same hosts, another path first: the redeploy changes nothing but the prefix list
+				other := vfSvcSpec{Name: s.Name, Hosts: s.Hosts, Prefixes: []string{"/zz-detour"}}
+				if err := vfDeploySpec(r2, other, targetOf[s.Name]); err != nil {
+					res.failf("deploy-error", "router2: detour (other prefix on the same hosts) deploy failed: %v", err)
+					return
+				}
+				res.label("detour:same-hosts-other-prefix")
 			}
 			if err := vfDeploySpec(r2, s, targetOf[s.Name]); err != nil {
 				res.failf("deploy-error", "router2: deploy of %+v failed: %v", s, err)
